@@ -17,7 +17,12 @@ CONF = dict(
  'lucky.wild / ntimed.wild: histories made of degenerate and out-of-range samples (identical timestamps, zero delay, negative round trip, negative processing time, hi < lo, '
  'one-way differences in [2^62, 2^63) ns, saturating differences beyond 292 years in one or both directions, the surroundings of the corner lo + hi >= 2^64 - 2^14 and its mirror image; the corner itself only for the lucky-packet filter), '
  'all non-trivial. ntimed.corner: 11 scripted one-sample histories around the corner (sRx = sTx = 0, cTx and cRx between 2^63 - 30001 and 2^63 + 5 ns), strict oracle. Ties on windows of at most 12 samples are compared exactly (stable insertion sort), on longer windows relationally; '
- 'distinct = distinct (kind, input)'),
+ 'Capacities: 1..16 mostly, 17/31/32/33/64/100 in 1/40 of the lucky histories (long enough to fill the window, tie-free, judged by the exact oracle) and one history at 256; '
+ 'lucky.new: constructor arguments -3..20 and 17/31/32/33/64/100/256 with pick 1, cap/2, cap, cap+5, followed by a probe of 2(cap+3) samples (strictly increasing then strictly '
+ 'decreasing delays) whose outputs show the effective window size and pick count. Long histories: 300 and 600 samples per filter in the quick tier, 70000 in the thorough tier. '
+ 'lucky.inter / ntimed.inter: two or three instances with own configurations and sample streams called in a random interleaving (the clock may step between any two calls), each compared '
+ 'with its own model run and oracle. mono: a few histories whose client times derive from time.Now() and carry a monotonic reading. ntimed.epochsrc: one source check (go/ast) of '
+ 'driver/clocks/sysclk_linux.go. distinct = distinct (kind, input)'),
     assumptions=['float64 arithmetic of Go on amd64 = IEEE-754 binary64 round-to-nearest-even without FMA contraction, math.Sqrt = correctly rounded SQRTSD (Flocq '
  'BinarySingleNaN); int64(float64) = CVTTSD2SQ (-2^63 when out of range)',
  'slices.SortFunc returns a sorted permutation (its contract); the lucky-packet selection theorem is proved for every such permutation under pairwise distinct delays '
@@ -29,7 +34,15 @@ CONF = dict(
  'ntimed-corner-wrong-sign (KNOWN_FINDINGS.txt): in the corner lo + hi >= 2^64 - 2^14 (both one-way differences within 8 us of +292 years) float64 mid*1e9 rounds to 2^63, int64() of it '
  'is -2^63 and timemath.Inv returns MaxInt64, i.e. +292 years for an offset of -292 years; corner samples are generated only under the kind ntimed.corner (11 scripted one-sample histories, '
  '4 of them wrong-sign = the known finding, 7 fine), the theorems C17_ntimed_oracle / _raw_close_oracle exclude the corner and C17_ntimed_sign_refuted / _oracle_refuted exhibit it',
- 'the epoch the filter sees is what the registered clock reports during the call (fake clock scripted per call)'],
+ 'the epoch the filter sees is what the registered clock reports during the call (fake clock scripted per call). That a clock STEP produces a new epoch is tied to the real clock only '
+ 'syntactically (the real SystemClock.Step calls adjtimex/clock_settime and cannot be run): case ntimed.epochsrc checks with go/ast that in driver/clocks/sysclk_linux.go '
+ '(c *SystemClock) Step contains exactly one setOffset(...) call and exactly one c.epoch++, both top-level statements of the body, the increment after the call, no return/goto/function '
+ 'literal in between, that Epoch returns c.epoch, and that nothing else in the package mentions the field',
+ 'time.Time values carry no monotonic reading, or one consistent with the wall reading: on Linux timebase.Now() is time.Unix(clock_gettime) (none; sysclk_linux.go), kernel and wire '
+ 'timestamps have none; on other platforms sysclk_std.go returns time.Now().UTC(), which keeps the monotonic reading, and Time.Sub then uses it where both operands have one '
+ '(ntp.RoundTripDelay: cRx.Sub(cTx)); such values are exercised (tag mono), a wall-clock step between cTx and cRx (monotonic and wall differences disagreeing) cannot be produced in a test',
+ 'build: GOARCH=amd64 with GOAMD64=v1 (no FMA contraction of x*y+z; with GOAMD64=v3 the compiler may fuse alo - loNoise*3, alolo - alo*alo, ... and the bit-exact comparison would report it); '
+ 'the harness records GOARCH, GOAMD64 and a run-time contraction test in a NOTE of the evidence'],
     trusted=['Flocq 4 (IEEE754.BinarySingleNaN) as the float64 semantics; theorems about the Ntimed model depend on the four standard-library axioms Flocq uses; the '
  'lucky-packet theorems are closed under the global context',
  'modelled, not verified: slices.SortFunc (pdqsort) by contract, time.Time.Sub/Duration.Seconds, math.Sqrt, Go float<->int conversions, log/slog (used for coverage '
@@ -49,12 +62,13 @@ CONF = dict(
  '(C17_lucky_reset_fresh/_state, C17_ntimed_reset_fresh/_state/_epoch_fresh) and checked on the implementation by the reset kinds. Ties: exact for windows of at most 12 samples '
  '(C17_lucky_ties: Go\'s insertion sort = stable sort, the older sample of equal delay is kept; the oracle judges these windows too); windows of 13 and more samples with tied delays '
  '(pdqsort proper, not modelled) are accepted by an executable relation (some choice among the tied samples) without a soundness theorem. "Within the learned bounds" is evaluated '
- 'with the limits of the model state.'),
+ 'with the limits of the model state. Outside C17: the callers\' wiring (client_ip.go / client_scion.go handing t0..t3 to Filter.Do in this order - covered by C03; timeservice.go '
+ 'installing NewNtimedFilter) and the real SystemClock (only the syntactic tie ntimed.epochsrc).'),
     explanation=('C17_lucky_spec/_oracle: for all histories the configured filter returns the median offset of the min(k,N) lowest-delay samples of the last N since Reset; '
  'C17_ntimed_raw_young/_within: raw offset during warm-up and within bounds; C17_ntimed_raw_close/_sign: that raw offset is within 2 ns + 2^-50 relative of ntp.ClockOffset with its sign; '
  'C17_ntimed_reset/_restart/_reset_fresh: outputs after a reset point are those of a new filter, for all states; C17_lucky_reset_fresh: the same for the lucky-packet filter; '
  'C17_lucky_ties: equal delays keep the older sample (windows up to 12); C17_ntimed_raw_wide/_corner: behaviour beyond 2^62 ns; C17_ntimed_oracle: the model meets the whole Ntimed oracle on all histories.'),
     timeout_quick=600,
     timeout_thorough=3000,
-    min_cases={'lucky.hist': 361, 'lucky.new': 9, 'lucky.reset': 120, 'lucky.wild': 90, 'ntimed.corner': 11, 'ntimed.hist': 360, 'ntimed.reset': 120, 'ntimed.wild': 90},
+    min_cases={'lucky.hist': 363, 'lucky.inter': 60, 'lucky.new': 16, 'lucky.reset': 120, 'lucky.wild': 90, 'ntimed.corner': 11, 'ntimed.epochsrc': 1, 'ntimed.hist': 363, 'ntimed.inter': 60, 'ntimed.reset': 120, 'ntimed.wild': 90},
 )
